@@ -460,6 +460,23 @@ func (s *SQLiteStore) streamBatched(
 	batchSize := s.cfg.streamBatchSize
 	currentPos := fromPosition
 
+	// Check the context before each yield, as the unbatched path does (and as
+	// EventStoreStreamer documents); a batch that is already fetched would
+	// otherwise be delivered in full after cancellation
+	consumer := yield
+	yield = func(event *eventbus.StoredEvent, err error) bool {
+		if err == nil {
+			select {
+			case <-ctx.Done():
+				*iterErr = ctx.Err()
+				consumer(nil, *iterErr)
+				return false
+			default:
+			}
+		}
+		return consumer(event, err)
+	}
+
 	for {
 		select {
 		case <-ctx.Done():
